@@ -634,3 +634,70 @@ def _needs_11(doc) -> bool:
         if ss.get('members') or ss.get('lexfile'):
             return True
     return False
+
+
+def generate_big(rng: random.Random, n=None) -> dict:
+    """A universe whose sizes cross the thresholds small universes never reach (default
+    BATCH_SIZE=1000, SQLite's 999 host parameters, power-of-two chunk sizes): two lexicons of
+    *n* synsets/entries sharing their ILIs one to one, a hub synset related to every other
+    one in the provider, a dependent that borrows all its relations, and an ILI index of
+    more than a thousand rows with the lexicons' ILIs placed around chunk boundaries."""
+    n = n or rng.choice([1030, 1100, 2050])
+    def lexicon(lid, lang, rels, requires):
+        lex = {'id': lid, 'version': '1', 'label': 'Big ' + lid, 'language': lang,
+               'email': 'm@example.com', 'license': 'MIT', 'meta': None, 'extends': None,
+               'requires': requires, 'entries': [], 'synsets': [], 'frames': []}
+        for k in range(n):
+            ss = {'id': '%s-s%d' % (lid, k), 'ili': 'i%d' % (100 + k), 'partOfSpeech': 'n',
+                  'meta': None, 'definitions': [], 'relations': [], 'examples': []}
+            if k % 7 == 0:
+                ss['definitions'].append({'text': 'definition %d of %s' % (k, lid),
+                                          'meta': None})
+            if rels:
+                if k > 0:
+                    ss['relations'].append({'target': '%s-s%d' % (lid, (k - 1) // 2),
+                                            'relType': 'hypernym', 'meta': None})
+                if k == 0:
+                    for j in range(1, n):
+                        ss['relations'].append({'target': '%s-s%d' % (lid, j),
+                                                'relType': 'also', 'meta': None})
+            elif k % 3 == 0 and k > 0:
+                ss['relations'].append({'target': '%s-s%d' % (lid, k - 1),
+                                        'relType': 'similar', 'meta': None})
+            lex['synsets'].append(ss)
+            e = {'id': '%s-e%d' % (lid, k),
+                 'lemma': {'writtenForm': 'w%d' % (k % 300), 'partOfSpeech': 'n', 'tags': [],
+                           'pronunciations': []},
+                 'forms': [], 'frames': [], 'meta': None,
+                 'senses': [{'id': '%s-k%d' % (lid, k), 'synset': ss['id'], 'meta': None,
+                             'relations': [], 'examples': [], 'counts': []}]}
+            if k % 11 == 0:
+                e['senses'][0]['examples'].append({'text': 'example %d' % k, 'meta': None})
+            lex['entries'].append(e)
+        return lex
+    prov = lexicon('bige', 'en', True, [])
+    dep = lexicon('bigl', 'es', False, [{'id': 'bige', 'version': '1'}])
+    lexicons = {'bige:1': prov, 'bigl:1': dep}
+    rows = []
+    m = n + 300
+    order = list(range(m))
+    rng.shuffle(order)
+    # ILIs the lexicons use go to the positions around likely chunk boundaries
+    hot = sorted({p for b in (500, 512, 999, 1000, 1024, 2000, 2048)
+                  for p in (b - 2, b - 1, b, b + 1) if p < m})
+    used = rng.sample(range(n), min(len(hot), n))
+    pos = dict(zip(hot, used))
+    taken = set(used)
+    rest = [k for k in order if k not in taken]
+    for p in range(m):
+        k = pos.get(p)
+        if k is None:
+            k = rest.pop()
+        rows.append({'ili': 'i%d' % (100 + k), 'status': rng.choice(ILI_STATUSES),
+                     'definition': 'index gloss %d' % k})
+    ili_files = [{'name': 'ili0', 'upper': False, 'columns': ['ili', 'status', 'definition'],
+                  'rows': rows, 'crlf': False, 'extra_column': False}]
+    return {'profile': {'big': n}, 'lexicons': lexicons, 'order': ['bige:1', 'bigl:1'],
+            'resources': [{'name': 'r0', 'lmf_version': '1.1', 'lexicons': ['bige:1']},
+                          {'name': 'r1', 'lmf_version': '1.3', 'lexicons': ['bigl:1']}],
+            'ili_files': ili_files}
